@@ -335,7 +335,7 @@ func (v *Verifier) lookupType(name string) types.Type {
 	case "bool":
 		return types.Typ[types.Bool]
 	case "[]byte":
-		return types.NewSlice(types.Typ[types.Uint8])
+		return types.NewSlice(types.Universe.Lookup("byte").Type()) // the alias, so that the tag is the one of a `[]byte` case in the code
 	}
 	if strings.HasPrefix(name, "[]") {
 		if t := v.lookupType(name[2:]); t != nil {
